@@ -130,6 +130,12 @@ def _edit_options(x, allow_tuples, allow_raw_keys):
             out.append(('reorder', dict(reversed(list(x.items())))))
             out.append(('dropkey', dict(list(x.items())[:-1])))
         out.append(('addkey', dict(list(x.items()) + [('zz', None)])))
+        if x:
+            k0 = next(iter(x))
+            # same number of keys, different key set (also with a null value under the unmatched key)
+            out.append(('renamekey', {('zz' if kk == k0 and type(kk) is type(k0) else kk): vv for kk, vv in x.items()}))
+            out.append(('renamekey_null', {('zz' if kk == k0 and type(kk) is type(k0) else kk): (None if kk == k0 else vv) for kk, vv in x.items()}))
+            out.append(('nullvalue', {kk: (None if kk == k0 and type(kk) is type(k0) else vv) for kk, vv in x.items()}))
         if allow_raw_keys:
             for k in list(x):
                 if k == '1' and type(k) is str:
